@@ -648,6 +648,9 @@ def run(ctx):
     pg = C.import_phasegen()
     for i, c in enumerate(pool_cases(q, None)):
         eval_pool(ctx, pg, c['cfg'], c['query'])
+    # ... and the helper that hands out the work itself, against its Lean model (PGModel/Parallel.lean, driver command `parallel`)
+    from props import corr_models
+    corr_models.run_parallel_probe(ctx, 12 if q else 40)
 
 
 def fix_query(q):
